@@ -50,11 +50,12 @@ var everyStmtFine = map[string]bool{
 }
 
 type instrumenter struct {
-	fset     *token.FileSet
-	file     string
-	every    bool
-	gates    int
-	pkgVars  map[string]bool
+	fset       *token.FileSet
+	file       string
+	every      bool
+	gates      int
+	pkgVars    map[string]bool
+	visibleOps bool
 }
 
 func (in *instrumenter) gateStmt(pos token.Pos) ast.Stmt {
@@ -153,7 +154,7 @@ func (in *instrumenter) rewriteList(list []ast.Stmt) []ast.Stmt {
 	out := make([]ast.Stmt, 0, len(list)*2)
 	for _, s := range list {
 		in.rewriteStmt(s)
-		if _, isLabeled := s.(*ast.LabeledStmt); !isLabeled && (in.every || in.visible(s)) {
+		if _, isLabeled := s.(*ast.LabeledStmt); !isLabeled && (in.every || (in.visibleOps && in.visible(s))) {
 			out = append(out, in.gateStmt(s.Pos()))
 		}
 		out = append(out, s)
@@ -182,11 +183,11 @@ func (in *instrumenter) rewriteStmt(s ast.Stmt) {
 func main() {
 	repo := flag.String("repo", "/repo", "repository root")
 	out := flag.String("out", "", "output directory")
-	profile := flag.String("profile", "core", "core|fine|none")
+	profile := flag.String("profile", "duplex", "duplex|pools|fine|none")
 	shim := flag.String("shim", "", "directory holding verifsync.go.txt and verif_hooks.go.txt")
 	flag.Parse()
 	if *out == "" || *shim == "" {
-		fmt.Fprintln(os.Stderr, "usage: instr -repo /repo -out DIR -shim DIR [-profile core|fine|none]")
+		fmt.Fprintln(os.Stderr, "usage: instr -repo /repo -out DIR -shim DIR [-profile duplex|pools|fine|none]")
 		os.Exit(2)
 	}
 	srcDir := filepath.Join(*out, "src")
@@ -242,12 +243,21 @@ func main() {
 	perFile := map[string]int{}
 	for _, pf := range files {
 		in := &instrumenter{fset: fset, file: pf.name, pkgVars: pkgVars}
+		visibleOps := false
 		switch *profile {
-		case "core":
+		case "duplex": // concurrency core only (C14/C15 and all sequential explorers)
 			in.every = everyStmtCore[pf.name]
-		case "fine":
+		case "pools": // + every visible operation elsewhere (C13)
+			in.every = everyStmtCore[pf.name]
+			visibleOps = true
+		case "fine": // every statement of the codec / protocol files (C13 thorough)
 			in.every = everyStmtFine[pf.name]
+			visibleOps = true
+		case "none":
+		default:
+			fail(fmt.Errorf("unknown profile %q", *profile))
 		}
+		in.visibleOps = visibleOps
 		// import rewrite
 		for _, imp := range pf.f.Imports {
 			if imp.Path.Value == `"sync"` {
